@@ -19,6 +19,7 @@ CHECKS = {
     "C10": ("c10", False),
     "C17": ("c17", False),
     "C06": ("c06", False),
+    "C05": ("c05", False),
     "C19": ("c19", False),
 }
 
